@@ -10,11 +10,17 @@ import struct
 import traceback
 
 
+# True in a process that exists for one run only (a forked child, a replay, a REPEAT evaluation): only there may
+# host-process state that cannot be undone (re-compiled modules) be changed on behalf of a plan
+THROWAWAY = [False]
+
+
 def forked(fn, *args):
     r, w = os.pipe()
     pid = os.fork()
     if pid == 0:
         code = 0
+        THROWAWAY[0] = True
         try:
             os.close(r)
             try:
